@@ -79,9 +79,22 @@ def check(ctx):
     from ._claims import check_claims
 
     check_claims(ctx)
+    from ._phases import option_used, min_count
+
+    option_used(ctx, ["dask/dataframe/dask_expr/_groupby.py"], floor=5)
+    min_count(ctx, ["dask/dataframe/dask_expr/_groupby.py"], floor=2)
+    # named aggregation: pandas' reconstruct_func returns `order`, the positions to take; it is applied as is
+    gb = ctx.model.klass("dask/dataframe/dask_expr/_groupby.py", "GroupBy")
+    ag = gb.own_methods.get("aggregate") or gb.own_methods.get("agg")
+    if ag is None:
+        raise AnchorMissing("GroupBy.aggregate")
+    rel_ = find("result = result.iloc[:, M_o]", ag)
+    ok = len(rel_) == 1 and unparse(rel_[0][1]["M_o"]) == "order" and bool(find("result.columns = columns", ag)) and "reconstruct_func" in unparse(ag)
+    ctx.ob("TAB.relabel-order", ag, "named aggregation: result.iloc[:, order] with the order returned by reconstruct_func, then the new column names", ok, "" if ok else f"columns are permuted by {unparse(rel_[0][1]['M_o']) if rel_ else None}: with interleaved input columns the output names land on the wrong aggregates")
 
 
 VARIANTS = [
+    ("dask/dataframe/dask_expr/_groupby.py", "                result = result.iloc[:, order]", "                result = result.iloc[:, np.argsort(order)]", "TAB.relabel-order"),
     (GB, "class Count(SingleAggregation):\n    groupby_chunk = M.count\n    groupby_aggregate = M.sum", "class Count(SingleAggregation):\n    groupby_chunk = M.count\n    groupby_aggregate = M.count", "ALG.decomposition"),
     (GB, "class Size(SingleAggregation):\n    groupby_chunk = M.size\n    groupby_aggregate = M.sum", "class Size(SingleAggregation):\n    groupby_chunk = M.size", "ALG.decomposition"),
     (GB, "class GroupByCumprod(GroupByCumulative):\n    chunk = M.cumprod\n    aggregate = M.mul\n    initial = 1", "class GroupByCumprod(GroupByCumulative):\n    chunk = M.cumprod\n    aggregate = M.mul\n    initial = 0", "ALG.scan-monoid"),
